@@ -146,16 +146,15 @@ def h2(ctx, fx, H):
                     ctx.finding("C06.H2", P, "json-disclosures", "JSON presentation lists something other than the selected disclosures: %s" % vstr(v, 4), line=s.get("line"))
 
 
-def selector_prune(fx, fn, lp, path, assume):
-    """edges contradicted by assuming the selector (item path `path` of loop lp) is 'null' or 'false'"""
+def selector_prune(fx, fn, is_sel, assume):
+    """edges contradicted by assuming the selector (the values `is_sel` recognises: a loop item component or a parameter) is 'null' or 'false'"""
     removed = []
     VAL = "serde_json::Value"
     dnull = fx.variant_discr(VAL, "Null")
     dbool = fx.variant_discr(VAL, "Bool")
     want = dnull if assume == "null" else dbool
     for (b, subj) in common.discr_switches(fn):
-        p = item_path(subj, lp.node)
-        if p != path:
+        if not is_sel(subj):
             continue
         t = fn.term(b)
         listed = set(v for (v, _) in t["targets"])
@@ -167,30 +166,68 @@ def selector_prune(fx, fn, lp, path, assume):
     if assume == "false":
         for (b, tt, ft, c) in bool_switches(fn):
             c = peel(c)
-            if c.kind == "field" and peel(c.kids[0]).kind == "variant" and peel(c.kids[0]).d.get("variant") == "Bool" and item_path(peel(c.kids[0]).kids[0], lp.node) == path:
+            if c.kind == "field" and peel(c.kids[0]).kind == "variant" and peel(c.kids[0]).d.get("variant") == "Bool" and is_sel(peel(c.kids[0]).kids[0]):
                 removed.append((b, tt))
     # as_object()/as_array() on the selector: None under both assumptions
     fv = vals(fn)
     for b, t in fn.calls():
         if t.get("name") in ("as_object", "as_array", "as_str", "as_object_mut"):
             n = fv.call_node(b)
-            if n.kids and item_path(n.kids[0], lp.node) == path:
+            if n.kids and is_sel(n.kids[0]):
                 g, _ = success_edges(fn, n)
                 removed.extend(g)
     return removed
 
 
+def selects_nothing(fx, H, fn, is_sel, assume, starts, stop, depth=0):
+    """with the selector assumed null / false, nothing is added to fn's result between `starts` and `stop`, except results of selection
+    functions that receive the same selector and themselves select nothing for it. Returns (bad_block or None, number of pruned edges)"""
+    rem = selector_prune(fx, fn, is_sel, assume)
+    nprune = len(rem)
+    L, writes = H.result_writes(fn)
+    fv = vals(fn)
+    sel_names = dict((f.name, f) for f in H.sel_all if f.kind != "closure")
+    for d in starts:
+        r = cfg.reachable(fn, [d], removed_blocks=stop, removed_edges=rem)
+        for (b, t, n) in writes:
+            if b not in r:
+                continue
+            tolerated = False
+            if t.get("name") in ("append", "extend") and len(n.kids) > 1 and depth < 3:
+                calls = [x for x in walk(n.kids[1]) if x.kind == "call" and x.d["term"].get("resolved") in sel_names]
+                if calls and must(n.kids[1], lambda x: x in calls):
+                    allq = True
+                    for c in calls:
+                        G = sel_names[c.d["term"]["resolved"]]
+                        ks = [i + 1 for i, a in enumerate(c.kids) if is_sel(a)]
+                        if len(ks) != 1:
+                            allq = False
+                            break
+                        k = ks[0]
+                        bad2, np2 = selects_nothing(fx, H, G, lambda x, k=k, G=G: _is_param(x, k), assume, [0], [], depth + 1)
+                        if bad2 is not None or np2 == 0:
+                            allq = False
+                            break
+                        nprune += np2
+                    tolerated = allq
+            if not tolerated:
+                return (b, nprune)
+    return (None, nprune)
+
+
+def _is_param(x, k):
+    x = peel(x)
+    g = 0
+    while x.kind == "index" and x.kids and g < 4:
+        x = peel(x.kids[0])
+        g += 1
+    return x.kind == "param" and x.d["idx"] == k
+
+
 def h3(ctx, fx, H):
     nchk = 0
     for fn in H.sel_fns:
-        L, writes = H.result_writes(fn)
-        wb = [b for (b, t, n) in writes]
         for lp in next_loops(fn):
-            srcs = lp.sources()
-            # the selector is the part of the item that derives from the selection parameter
-            sel_path = None
-            for cand in ([1], [0], []):
-                pass
             it = lp.iter_ty
             if "serde_json::map::IntoIter" in it or "serde_json::map::Iter" in it:
                 sel_path = [1]
@@ -198,18 +235,13 @@ def h3(ctx, fx, H):
                 sel_path = [0]
             else:
                 continue
+            is_sel = lambda x, lp=lp, sel_path=sel_path: item_path(x, lp.node) == sel_path
             for assume in ("null", "false"):
                 nchk += 1
-                rem = selector_prune(fx, fn, lp, sel_path, assume)
-                bad = None
-                for d in lp.body_entries:
-                    r = cfg.reachable(fn, [d], removed_blocks=[lp.bb], removed_edges=rem)
-                    hit = [b for b in wb if b in r]
-                    if hit:
-                        bad = hit[0]
-                if bad is None and rem:
-                    ctx.ok("C06.H3", fn, "selector-%s" % assume, "with the selector %s no disclosure is pushed/appended before the next iteration" % assume, line=fn.term(lp.bb).get("line"))
-                elif not rem:
+                bad, nprune = selects_nothing(fx, H, fn, is_sel, assume, lp.body_entries, [lp.bb])
+                if bad is None and nprune:
+                    ctx.ok("C06.H3", fn, "selector-%s" % assume, "with the selector %s no disclosure is pushed/appended before the next iteration (%d edge(s) decided by the assumption)" % (assume, nprune), line=fn.term(lp.bb).get("line"))
+                elif bad is None or not nprune:
                     ctx.finding("C06.H3", fn, "selector-%s" % assume, "the walker does not branch on the selector's kind", line=fn.term(lp.bb).get("line"))
                 else:
                     ctx.finding("C06.H3", fn, "selector-%s" % assume, "a `%s` selector still reaches a push/append of disclosures (something beneath an unselected claim is disclosed)" % assume, line=fn.term(bad).get("line"))
@@ -383,6 +415,28 @@ def role_preserving(ctx, fx, H, rule):
         if len(claims) == 1 and len(jp) == 2:
             c = list(claims)[0]
             roles[fn.name] = {"claims": c, "selection": [i for i in jp if i != c][0]}
+    # a walker that only forwards (e.g. zips the two lists and calls a per-element function) takes its roles from the callee's
+    changed = True
+    while changed and len(roles) < len(H.sel_fns):
+        changed = False
+        for fn in H.sel_fns:
+            if fn.name in roles:
+                continue
+            fv = vals(fn)
+            jp = [i for i in range(1, fn.arg_count + 1) if "serde_json::" in (fn.local_ty(i) or "")]
+            cl, se = set(), set()
+            for b, t in fn.calls():
+                g = roles.get(t.get("resolved"))
+                if not g:
+                    continue
+                node = fv.call_node(b)
+                if g["claims"] - 1 < len(node.kids):
+                    cl |= common.param_roots(node.kids[g["claims"] - 1]) & set(jp)
+                if g["selection"] - 1 < len(node.kids):
+                    se |= common.param_roots(node.kids[g["selection"] - 1]) & set(jp)
+            if len(cl) == 1 and len(se) == 1 and cl != se and len(jp) == 2:
+                roles[fn.name] = {"claims": list(cl)[0], "selection": list(se)[0]}
+                changed = True
     if len(roles) < len(H.sel_fns):
         ctx.missing(rule, "walker roles", "cannot tell the claims parameter from the selection parameter in %s" % sorted(set(f.name for f in H.sel_fns) - set(roles)))
         return
